@@ -77,8 +77,84 @@ impl Sub for HashPoint {
     }
 }
 
+/// A short history of related strings hashed one after the other on the same thread with the same
+/// degree: prefixes, extensions, the empty string, equal-length variants. Every result must be the
+/// reference's, whatever was hashed before (memoisation, reused buffers, incremental hashing).
+#[derive(Clone, Debug, Serialize, Deserialize)]
+pub struct SeqCase {
+    base: Hex,
+    /// each step: (n, kind, parameter) - the string is derived from `base`
+    steps: Vec<(usize, u8, u16)>,
+}
+
+pub struct HashSequence;
+
+fn derive(base: &[u8], kind: u8, p: u16) -> Vec<u8> {
+    match kind % 7 {
+        0 => base.to_vec(),
+        1 => base[..crate::engine::pick_index(p, base.len() + 1)].to_vec(), // a prefix (possibly empty)
+        2 => {
+            let mut v = base.to_vec();
+            v.extend((0..(p % 200) as usize + 1).map(|i| (p as usize + i) as u8)); // an extension
+            v
+        }
+        3 => vec![], // the empty string
+        4 => {
+            let mut v = base.to_vec(); // same length, one byte changed
+            if !v.is_empty() {
+                let i = crate::engine::pick_index(p, v.len());
+                v[i] ^= 0x01 | (p as u8);
+            }
+            v
+        }
+        5 => {
+            let mut v = base.to_vec(); // one zero byte appended
+            v.push(0);
+            v
+        }
+        _ => base.iter().rev().cloned().collect(),
+    }
+}
+
+impl Sub for HashSequence {
+    type Case = SeqCase;
+    fn name(&self) -> &'static str {
+        "hash_sequence"
+    }
+    fn strategy(&self, _env: &Env) -> BoxedStrategy<SeqCase> {
+        let base = prop_oneof![6 => proptest::collection::vec(any::<u8>(), 0..200), 1 => proptest::collection::vec(any::<u8>(), 4000..4200)];
+        let step = (prop_oneof![Just(512usize), Just(1024usize)], 0u8..7, any::<u16>());
+        (base, proptest::collection::vec(step, 2..8)).prop_map(|(b, steps)| SeqCase { base: Hex(b), steps }).boxed()
+    }
+    fn check(&self, c: &SeqCase, st: &mut Stats) -> Result<(), Fail> {
+        let mut prev: Option<(usize, Vec<u8>)> = None;
+        for (i, &(n, kind, p)) in c.steps.iter().enumerate() {
+            if n != 512 && n != 1024 {
+                return Ok(());
+            }
+            let s = derive(&c.base.0, kind, p);
+            let want = refimpl::hash::hash_to_point(&s, n);
+            let got = to_i64(&hash_to_point(&s, n));
+            ensure!(got == want, "hash:after-history", "step {}: hash_to_point of a {}-byte string (n = {}) differs from Algorithm 3 after hashing {} before it", i, s.len(), n, match &prev { Some((pn, ps)) => format!("a {}-byte string with n = {} ({})", ps.len(), pn, if s.starts_with(ps) || ps.starts_with(&s) { "one is a prefix of the other" } else { "unrelated" }), None => "nothing".to_string() });
+            if let Some((pn, ps)) = &prev {
+                if *pn == n && *ps != s && (s.starts_with(ps) || ps.starts_with(&s)) {
+                    st.count("consecutive_same_degree_prefix_related_pairs");
+                    st.nontrivial(&(&c.base.0, i, kind, p));
+                }
+                if *pn == n && ps.len() == s.len() && *ps != s {
+                    st.count("consecutive_same_degree_equal_length_pairs");
+                }
+            }
+            prev = Some((n, s));
+        }
+        st.count("hash_sequences");
+        st.sample("sequence", || json!({"base_len": c.base.0.len(), "steps": c.steps}));
+        Ok(())
+    }
+}
+
 const META: Meta = Meta {
-    rule: "proptest byte strings of length 0..410 (emphasis on 0, 1, 40 and on lengths around multiples of the SHAKE-256 rate 136) and, one in seventeen, long strings around 1 KiB, 4 KiB, 8 KiB and 64 KiB, random / constant / counting content; each is hashed for n = 512 and n = 1024 and compared with an independent Keccak-f[1600] + Algorithm 3. Non-trivial = the consumed stream contains a rejected 16-bit chunk (>= 61445); strings whose stream contains the boundary values 61444/61445/61446 are counted separately. Distinct by hash of the string.",
+    rule: "proptest byte strings of length 0..410 (emphasis on 0, 1, 40 and on lengths around multiples of the SHAKE-256 rate 136) and, one in seventeen, long strings around 1 KiB, 4 KiB, 8 KiB and 64 KiB, random / constant / counting content; each is hashed for n = 512 and n = 1024 and compared with an independent Keccak-f[1600] + Algorithm 3. Non-trivial = the consumed stream contains a rejected 16-bit chunk (>= 61445); strings whose stream contains the boundary values 61444/61445/61446 are counted separately. Distinct by hash of the string. Second sub-check: histories of 2-7 related strings (prefixes, extensions, the empty string, equal-length variants of one base string) hashed consecutively on one thread, each compared with the reference (non-trivial = a consecutive same-degree pair in which one string is a proper prefix of the other).",
     assumptions: &[
         "oracle: refimpl::keccak (checked against the NIST SHAKE-256 vectors for '' and 'abc') and refimpl::hash (Algorithm 3)",
     ],
@@ -86,7 +162,7 @@ const META: Meta = Meta {
 
 pub fn run(env: &Env, replay: Option<&Path>) -> i32 {
     let mut report = Report::new();
-    let subs: [&dyn DynSub; 1] = [&HashPoint];
+    let subs: [&dyn DynSub; 2] = [&HashPoint, &HashSequence];
     if let Some(p) = replay {
         if let Err(e) = replay_file(env, &subs, p, &mut report) {
             eprintln!("harness: {}", e);
@@ -96,6 +172,7 @@ pub fn run(env: &Env, replay: Option<&Path>) -> i32 {
     }
     replay_corpus(env, &subs, &mut report);
     drive(env, &HashPoint, env.tier.pick(200_000, 4_000_000), &mut report);
+    drive(env, &HashSequence, env.tier.pick(40_000, 800_000), &mut report);
     finish(env, report, &META)
 }
 
